@@ -25,6 +25,13 @@ def anchors():
         p = json.loads(line)
         for f in p["anchors"]["files"]:
             m.setdefault(f, []).append(p["id"])
+    # the properties that observe every rule (winner counts, query purity) apply to every election class, whatever
+    # file their statement is anchored in
+    for f, ids in m.items():
+        if "/elections/election_types/" in f:
+            for extra in ("C09", "C01"):
+                if extra not in ids:
+                    ids.append(extra)
     return m
 
 
